@@ -38,3 +38,16 @@ Definition tcp_period (configured_idle : option N) : N :=
   end.
 Definition udp_period (configured_udp : option N) : N :=
   match configured_udp with Some v => v | None => DEFAULT_PERIOD end.
+
+(* which period a UDP association gets, by the kind of listener that accepted it.  The socks, reverse and tproxy listeners set
+   timeouts.udp themselves (the translator counts the three call sites); the http and quic listeners create their UDP
+   associations in the shared CONNECT handshake (Proxy-Protocol: udp), which applies the period it is handed
+   (fix 87730c1; both facts are read from the source). *)
+Inductive lkind := LSocks | LReverse | LTproxy | LHttp | LQuic.
+Definition udp_assoc_period (k : lkind) (configured_idle configured_udp : option N) : N :=
+  match k with
+  | LSocks | LReverse | LTproxy =>
+      if Gen_startup.udp_sessions_take_the_udp_timeout =? 3 then udp_period configured_udp else tcp_period configured_idle
+  | LHttp | LQuic =>
+      if Gen_startup.connect_udp_sessions_take_the_udp_timeout then udp_period configured_udp else tcp_period configured_idle
+  end.
